@@ -13,6 +13,14 @@ def check(run):
         units = callpath.build_units(run, pols, shapes, ndebug=nd)
         for u in units:
             walk.check_unit(run, u, r)
+    from .. import crules
+    r2, r3 = "C01-order", "C01-cells"
+    run.rule(r2, "is_more_specific is the documented per-position decision table over {equal, derived, base, unrelated}", floor=3)
+    run.rule(r3, "dispatch cell = sole best definition / not_implemented when none / ambiguous when several", floor=12)
+    for nd in variants:
+        ast, _ = crules.unit(run, ndebug=nd)
+        crules.order_rules(run, r2, None, ast)
+        crules.cells_rules(run, r3, None, None, ast)
     run.assumptions += ["v-table pointer acquisition (Policy::dynamic_vptr, virtual_ptr::_vptr) is an opaque leaf here; its content is decided by C09 / C15",
                         "the tables themselves (which definition sits in which cell) are values computed by update: not decided"]
     return run.finish(level="other", explanation="Symbolic summary (LLVM IR after mem2reg, library calls substituted) of the function pointer that "
